@@ -39,10 +39,11 @@ META = {
 }
 
 THEOREMS = [
-    "attr_roundtrip", "attr_roundtrip_partial", "literal_eval_inverts_repr", "str_literal_roundtrip",
+    "attr_roundtrip", "attr_roundtrip_partial", "literal_eval_inverts_repr", "str_literal_roundtrip", "attr_encode_injective",
     "c10_nan_word_refuted", "c10_inf_key_refuted",
-    "file_roundtrip", "reference_identity", "restrict_drops_exactly_below_level",
+    "file_roundtrip", "reference_identity", "field_objects_distinct", "restrict_drops_exactly_below_level",
     "c10_dangling_ref_refuted", "c10_parent_lookup_refuted", "c10_shallow_memo_refuted", "c10_np_string_refuted",
+    "c10_meta_nan_file_refuted",
 ]
 
 REQ = "From Verif Require Import Lib.Dyadic Model.C10_Attr Model.C10_File."
@@ -361,6 +362,8 @@ def dataset_term(ds, info=None):
         if unit is not None:
             unit = [unit] if isinstance(unit, str) else list(unit)
         mult = f.multiplier
+        if info is not None:
+            info.setdefault("entries", {})[".".join(p)] = (int(f._write_level), pl, sorted(rts), unit, int(mult))
         ents.append(emit.pair(path_term(p),
                     "(ELeaf {| l_kind := %s; l_level := %s; l_unit := %s; l_mult := %s; l_pl := %s; l_refs := %s |})"
                     % (emit.s(f.fieldtype), emit.z(int(f._write_level)),
@@ -592,6 +595,8 @@ def build_dataset(rng, spec):
             unit = rng.choice([None, None, "meter", "second"])
             if two:
                 unit = rng.choice([None, ("meter", "second"), "meter"])
+            if rng.random() < 0.3:
+                kw["multiplier"] = rng.choice([10, -1, 1000, 0])
             ds.add_float(name, val=fvals((n, 2) if two else (n,)), unit=unit, **kw)
         elif k == "bool":
             ds.add_bool(name, val=np.array([rng.random() < 0.5 for _ in range(n)], dtype=bool), **kw)
@@ -639,6 +644,7 @@ def run_dataset_case(ctx, idx, rng, corpus=None):
     info = {}
     d_term = dataset_term(ds, info)
     lvl_n = 1 if lvl is None else LEVELS[lvl]
+    info["hyp_term"] = emit.pair(d_term, emit.z(lvl_n))
     path = os.path.join(ctx.work, f"ds_{idx:05d}.hdf5")
     rep = dict(kind="dataset", tag=tag, index=idx, write_level=lvl,
                fields=[(".".join(p), f.fieldtype, f._write_level.name) for p, f in walk_fields(ds)],
@@ -658,8 +664,20 @@ def run_dataset_case(ctx, idx, rng, corpus=None):
         with warnings.catch_warnings():
             warnings.simplefilter("ignore")
             back = dataset.Dataset.read(path)
-        ord_ = f"(ORData {dataset_term(back)})"
+        info2 = {}
+        ord_ = f"(ORData {dataset_term(back, info2)})"
         rep["read_fields"] = [(".".join(p), f.fieldtype) for p, f in walk_fields(back)]
+        # diagnosis only (the verdict is Coq's): which written fields are described differently after reading
+        e1, e2 = info.get("entries", {}), info2.get("entries", {})
+        what = ["level", "payload (class/attributes/arrays)", "references", "unit", "multiplier"]
+        rep["diagnosis"] = [f"{k}: {what[i]} differ" for k in e1 if e1[k][0] >= lvl_n and k in e2
+                            for i in range(5) if e1[k][i] != e2[k][i]][:8] + \
+                           [f"{k}: missing after read" for k in e1 if e1[k][0] >= lvl_n and k not in e2][:4] + \
+                           [f"{k}: unexpected after read" for k in e2 if k not in e1 or e1[k][0] < lvl_n][:4]
+        if repr(dict(back.meta)) != repr(dict(sorted(ds.meta.items()))):
+            rep["meta_after"] = repr(dict(back.meta))[:600]
+        if dict(back.vars) != dict(ds.vars):
+            rep["vars_before_after"] = [repr(dict(ds.vars))[:300], repr(dict(back.vars))[:300]]
     except Unrepresentable:
         raise
     except Exception as ex:  # noqa: BLE001
@@ -741,6 +759,33 @@ def corpus_cases():
     return [dangling, forward_top, coll_forward, coll_to_top_forward, nested_forward, nested_backward, chain, meta_only, text_levels]
 
 
+def outside_cases():
+    """datasets the models exclude by `wf` (a leaf named like a reference attribute while some field keeps a private
+    object under that attribute); the property is judged directly: what is read must be what was written"""
+    import numpy as np
+    from midgard.data import dataset, position
+
+    def shadow_float():
+        d = dataset.Dataset(2)
+        d.add_position("a", val=np.ones((2, 3)) * 2, system="trs", other=position.Position(np.ones((2, 3)) * 9, system="trs"))
+        d.add_float("other", val=[1.0, 2.0])
+        return d, None, "c10_attr_name_shadows_field:float"
+
+    def shadow_position():
+        d = dataset.Dataset(2)
+        d.add_position_delta("dl", val=np.ones((2, 3)), system="trs", ref_pos=position.Position(np.ones((2, 3)) * 9, system="trs"))
+        d.add_position("ref_pos", val=np.ones((2, 3)) * 5, system="trs")
+        return d, None, "c10_attr_name_shadows_field:position"
+
+    def no_shadow():
+        d = dataset.Dataset(2)
+        d.add_float("other", val=[1.0, 2.0])
+        d.add_position("a", val=np.ones((2, 3)) * 2, system="trs", other=position.Position(np.ones((2, 3)) * 9, system="trs"))
+        return d, None, "c10_attr_name_shadows_field:control"
+
+    return [shadow_float, shadow_position, no_shadow]
+
+
 # ============================================================================= the run
 def run(ctx):
     import numpy as np  # noqa: F401
@@ -781,7 +826,7 @@ def run(ctx):
     flatA = emit.flatten_verdicts(vsA, len(casesA))
 
     # ---- B. datasets
-    casesB, metaB = [], []
+    casesB, metaB, hypB = [], [], []
     corp = corpus_cases()
     idx = 0
     skipped = 0
@@ -798,6 +843,7 @@ def run(ctx):
         idx += 1
         casesB.append(term)
         metaB.append(rep)
+        hypB.append(info.pop("hyp_term"))
         ctx.count(f"dataset:level:{rep['write_level']}")
         ctx.count(f"dataset:nfields:{len(rep['fields'])}")
         ctx.count(f"dataset:nrefs:{len(rep['references'])}")
@@ -813,6 +859,52 @@ def run(ctx):
                  nontrivial=nontriv, sample=rep if nontriv and len(metaB) % 60 == 11 else None)
     vsB = ctx.coq_cases(emit.shard_terms("check_run", casesB, 12), REQ)
     flatB = emit.flatten_verdicts(vsB, len(casesB))
+    # how many generated datasets meet the hypotheses of file_roundtrip (wf, tree_shaped, closed)
+    vsH = ctx.coq_cases(emit.shard_terms("check_hyp", hypB, 40), REQ + "\nFrom Verif Require Import Proofs.C10_FileTop.")
+    flatH = emit.flatten_verdicts(vsH, len(hypB))
+    for h in flatH or []:
+        ctx.count("hypotheses:" + "+".join(n for bit, n in ((1, "wf"), (2, "tree"), (4, "closed")) if h & bit))
+    if flatH is not None and any(h & 3 != 3 for h in flatH):
+        ctx.notes.append("some generated datasets are outside wf/tree_shaped: the generator left the modelled domain")
+
+    # ---- C. topologies outside the models' well-formedness domain, judged by the property itself on observables
+    casesC, metaC = [], []
+    for build in outside_cases():
+        ds, lvl, tag = build()
+        path = os.path.join(ctx.work, f"out_{len(casesC)}.hdf5")
+        rep = dict(kind="dataset-outside-model", tag=tag, write_level=lvl,
+                   fields=[(".".join(p), f.fieldtype, f._write_level.name) for p, f in walk_fields(ds)],
+                   how="see outside_cases() in harness/drivers/c10.py; ds.write(path); Dataset.read(path); compared field by field")
+        d_term = dataset_term(ds)
+        try:
+            with warnings.catch_warnings():
+                warnings.simplefilter("ignore")
+                ds.write(path, write_level=lvl)
+                from midgard.data import dataset as _ds
+                back = _ds.Dataset.read(path)
+            ord_ = f"(ORData {dataset_term(back)})"
+            rep["read_back"] = {".".join(p): (type(f.data).__name__, np.asarray(f.data).tolist() if f.fieldtype != "collection" else None)
+                                for p, f in walk_fields(back)}
+        except Exception as ex:  # noqa: BLE001
+            ord_ = f"(ORRaise {emit.s(type(ex).__name__)})"
+            rep["raised"] = f"{type(ex).__name__}: {ex}"[:300]
+        if os.path.exists(path):
+            os.remove(path)
+        casesC.append(emit.pair(d_term, emit.z(1 if lvl is None else LEVELS[lvl]), ord_))
+        metaC.append(rep)
+        ctx.count("outside:" + tag)
+        ctx.case(("C", tag), nontrivial=True)
+    vsC = ctx.coq_cases(emit.shard_terms("roundtrip_run", casesC, 20), REQ)
+    flatC = emit.flatten_verdicts(vsC, len(casesC))
+    if flatC is None:
+        ctx.violation({"broken": "correspondence shard C did not evaluate in Coq", "errors": ctx.last_coq_errors[:2]},
+                      what="correspondence (model evaluation) failed", found=False)
+    else:
+        for v, rep in zip(flatC, metaC):
+            if v != 0:
+                fid = rep["tag"].split(":")[0]
+                ctx.count("quirk:" + fid)
+                ctx.finding(fid, "a field named like a reference attribute (other/ref_pos/time) is read back with the data of another field's private attribute object", rep)
 
     # ---------------------------------------------------------------- decide
     for name, flat, meta in (("A", flatA, metaA), ("B", flatB, metaB)):
@@ -827,16 +919,17 @@ def run(ctx):
             if v in QUIRK_OF_VERDICT:
                 ctx.count(f"quirk:{QUIRK_OF_VERDICT[v][0]}")
                 ctx.finding(QUIRK_OF_VERDICT[v][0], QUIRK_OF_VERDICT[v][1], rep)
-            elif v in (7, 8):
-                # several known classes at once: report each open one; a closed one makes it a violation
-                ctx.count(f"quirk:combined:{v}")
-                ids = ["c10_nan_word", "c10_dangling_ref", "c10_shallow_memo", "c10_parent_lookup"] + (["c10_np_string_removed"] if v == 8 else [])
+            elif v >= 100:
+                # several quirks at once: every one of them must be a listed open finding
+                mask = v - 100
+                ids = [QUIRK_OF_VERDICT[q][0] for bit, q in ((1, 2), (2, 3), (4, 4), (8, 5)) if mask & bit]
+                ctx.count("quirk:" + "+".join(ids))
                 open_ids = {k_.get("id") for k_ in ctx.known if k_.get("status", "open") == "open"}
                 if all(i in open_ids for i in ids):
                     for i in ids:
                         ctx.finding(i, QUIRK_TEXT[i], rep)
                 else:
-                    ctx.violation(rep, what="behaviour only explained by a combination of quirks of which some are closed")
+                    ctx.violation(rep, what="behaviour only explained by quirks that are not (all) open findings: " + ", ".join(ids))
             else:
                 ctx.violation(rep, what=f"midgard differs from the model ({rep.get('kind', 'attribute codec')})")
 
